@@ -191,6 +191,15 @@ def _history(env, cfg):
             if k in got:
                 env.claim(f"value_since_first_appearance_t{t + 1}", eq(got[k], ref[k][0]))
     if ref:
+        # reads are pure: the normalised view neither changes what get() reports afterwards nor a dict handed out before
+        before = mvt.get()
+        snap = dict(before)
+        guarded(env, 'get_normalized', mvt.get_normalized)
+        after = mvt.get()
+        env.claim('normalised_view_leaves_raw_values', set(after.keys()) == set(ref.keys())
+                  and And(*[eq(after[k], ref[k][0]) for k in ref if k in after]))
+        env.claim('dict_handed_out_before_is_not_rewritten', set(before.keys()) == set(snap.keys())
+                  and And(*[eq(before[k], snap[k]) for k in snap if k in before]))
         k0 = sorted(ref)[0]
         env.canary('history_shifted', eq(mvt.get()[k0], ref[k0][0] + 1))
 
